@@ -119,3 +119,34 @@ theorem writeAll_perm {ws ws' : List (Nat × Bytes)} (hp : ws.Perm ws') (hdis : 
     exact ih2 ((p1.pairwise_iff Disj.symm).mp hdis) (fun y hy => hne y (p1.mem_iff.mpr hy)) d
 
 end Absnfs.Fs
+
+namespace Absnfs.Fs
+
+theorem writeBytes_length_ge (d : Bytes) (off : Nat) (w : Bytes) : d.length ≤ (writeBytes d off w).length := by
+  by_cases hw : w = []
+  · simp only [writeBytes, hw, if_true]; exact Nat.le_refl _
+  · rw [writeBytes_length _ _ _ hw]; omega
+
+theorem writeAll_length_ge (d : Bytes) (ws : List (Nat × Bytes)) : d.length ≤ (writeAll d ws).length := by
+  induction ws generalizing d with
+  | nil => exact Nat.le_refl _
+  | cons x xs ih =>
+    simp only [writeAll, List.foldl_cons]
+    exact Nat.le_trans (writeBytes_length_ge d x.1 x.2) (ih _)
+
+/-- after any sequence of writes, in any order, overlapping or not, the file is at least as long as the end of
+    every non-empty write in it: a READ after the completed WRITEs cannot come back shorter -/
+theorem writeAll_covers_every_write (d : Bytes) (ws : List (Nat × Bytes)) (x : Nat × Bytes) (hx : x ∈ ws) (hne : x.2 ≠ []) :
+    x.1 + x.2.length ≤ (writeAll d ws).length := by
+  induction ws generalizing d with
+  | nil => cases hx
+  | cons y ys ih =>
+    simp only [writeAll, List.foldl_cons]
+    cases List.mem_cons.mp hx with
+    | inl h =>
+      subst h
+      have h1 : x.1 + x.2.length ≤ (writeBytes d x.1 x.2).length := by rw [writeBytes_length _ _ _ hne]; omega
+      exact Nat.le_trans h1 (writeAll_length_ge _ ys)
+    | inr h => exact ih _ h
+
+end Absnfs.Fs
